@@ -100,6 +100,7 @@ def run(c):
                      "in-memory key-value store (aergo-lib memorydb) stands for the disk store",
                      "TLC 1.8.0"]
     box = {}
+    threads = []
 
     def bg(key, fn):
         def w():
@@ -149,10 +150,12 @@ def run(c):
                    reps=3 if thorough else 1, long_lists=2000 if thorough else 200, genesis=2000 if thorough else 200)
         inpath = os.path.join(c.work, "commit_in.json")
         json.dump(inp, open(inpath, "w"))
-        runs = [("types", go("./types/", "^TestVerifCommit$", {"VERIF_IN": inpath, "VERIF_OUT": os.path.join(c.work, "commit_out.json")}, 2400))]
         txin = os.path.join(c.work, "tx_in.json")
         json.dump(dict(mutations=[m for m in muts if m["kind"] == "tx"], reps=6 if thorough else 2), open(txin, "w"))
-        runs.append(("account/key", go("./account/key/", "^TestVerifTxSign$", {"VERIF_IN": txin, "VERIF_OUT": os.path.join(c.work, "tx_out.json")}, 1200)))
+        t_key = bg("key", lambda: go("./account/key/", "^TestVerifTxSign$", {"VERIF_IN": txin, "VERIF_OUT": os.path.join(c.work, "tx_out.json")}, 1200))
+        threads.append(t_key)
+        runs = [("types", go("./types/", "^TestVerifCommit$", {"VERIF_IN": inpath, "VERIF_OUT": os.path.join(c.work, "commit_out.json")}, 2400))]
+        runs.append(("account/key", need("key", t_key)))
         return gen1, (parsed, inp), runs
 
     tracepath = os.path.join(c.work, "hardfork_trace.ndjson")
@@ -184,7 +187,7 @@ def run(c):
         m2 = vlib.tlc(SPEC_DIR, "MC_Hardfork", mc2, os.path.join(c.work, "mc2"), workers=2, timeout=2400, heap="3g", java_opts=JOPTS)
         return m1, m2
     t_m = bg("mc", design)
-    threads = [t_a, t_b, t_m]
+    threads += [t_a, t_b, t_m]
 
     def absorb(runs):
         for name, (rc, output, o, wall) in runs:
